@@ -20,7 +20,7 @@ ColourClasses == {"d-red", "d-fill-darkblue", "d-text-none", "d-text-ol-red", "d
 TextClasses == {"d-text-bold", "d-text-large", "d-text-ol-thick"}      \* need a text element
 StrokeClasses == {"d-thin"}
 ArrowClasses == {"d-arrow", "d-biarrow"}
-DashClasses == {"d-dash", "d-dot", "d-dot-dash", "d-flow", "d-flow-rev"}
+DashClasses == {"d-dash", "d-dot", "d-dot-dash", "d-flow", "d-flow-fast", "d-flow-slower", "d-flow-rev"}
 PatternClasses == {"d-grid", "d-grid-5", "d-hatch-10", "d-stipple-2"}
 ShadowClasses == {"d-softshadow", "d-hardshadow"}
 Other == {"d-surround"}
